@@ -25,21 +25,28 @@ import (
 )
 
 type Tx struct {
-	K        string   `json:"k"`             // ibtp | transfer | invoke
-	Src      string   `json:"src,omitempty"` // "chainA:svc1" (local) or "9999:chainX:svcX" (other hub)
-	Dst      string   `json:"dst,omitempty"`
-	Idx      uint64   `json:"idx,omitempty"`
-	Typ      string   `json:"typ,omitempty"`   // REQ | OK | FAIL | RB
-	T        int64    `json:"t,omitempty"`     // timeout height (relative)
-	Proof    string   `json:"proof,omitempty"` // ok | bad | none
-	GDst     []string `json:"gdst,omitempty"`  // group: destination services
-	GIdx     []uint64 `json:"gidx,omitempty"`  // group: indices
-	From     string   `json:"from,omitempty"`  // sender account
-	C        string   `json:"c,omitempty"`
-	M        string   `json:"m,omitempty"`
-	Args     []string `json:"args,omitempty"`
-	Role     string   `json:"role,omitempty"`     // surface calls: outsider | otheradmin | govadmin
-	Promoted bool     `json:"promoted,omitempty"` // surface calls: method is promoted / not an entry point
+	K     string   `json:"k"`             // ibtp | transfer | invoke
+	Src   string   `json:"src,omitempty"` // "chainA:svc1" (local) or "9999:chainX:svcX" (other hub)
+	Dst   string   `json:"dst,omitempty"`
+	Idx   uint64   `json:"idx,omitempty"`
+	Typ   string   `json:"typ,omitempty"`   // REQ | OK | FAIL | RB
+	T     int64    `json:"t,omitempty"`     // timeout height (relative)
+	Proof string   `json:"proof,omitempty"` // ok | bad | none
+	GDst  []string `json:"gdst,omitempty"`  // group: destination services
+	GIdx  []uint64 `json:"gidx,omitempty"`  // group: indices
+	From  string   `json:"from,omitempty"`  // sender account
+	C     string   `json:"c,omitempty"`
+	M     string   `json:"m,omitempty"`
+	Args  []string `json:"args,omitempty"`
+	Role  string   `json:"role,omitempty"` // surface calls: outsider | otheradmin | govadmin
+	// inter-BitXHub traffic (C03 multi-signature matrix)
+	Ms       bool     `json:"ms,omitempty"`       // the proof is a pb.BxhProof{TxStatus, MultiSign}
+	Sigs     []string `json:"sigs,omitempty"`     // signers "<label>[!idx|!status|!type|!from]" or "junk"
+	MsStatus int      `json:"msstatus,omitempty"` // TxStatus inside the multi-signature proof
+	Notice   string   `json:"notice,omitempty"`   // ibtp.Extra: "" | BF | RB | OK | junk (a BxhProof carrying that status)
+	// rule scenarios: the proof is a Fabric artifact (endorsed broker response) "signer[!idx|!cc|!func|!sig]", e.g. "c0", "c1", "c0!idx"
+	Art      string `json:"art,omitempty"`
+	Promoted bool   `json:"promoted,omitempty"` // surface calls: method is promoted / not an entry point
 }
 
 type Step struct {
@@ -68,6 +75,34 @@ type Plan struct {
 	Steps   []Step            `json:"steps"`
 	GovMode bool              `json:"govmode,omitempty"`
 	FreeGas bool              `json:"freegas,omitempty"` // gas price 0: callers never run out of funds (surface scenarios)
+	Relay   *Relay            `json:"relay,omitempty"`   // another BitXHub registered as relay chain
+	Relay2  *Relay            `json:"relay2,omitempty"`  // a second one, with its own validators
+	Fabric  string            `json:"fabric,omitempty"`  // a chain validated by the simplified Fabric rule (trust root: endorser c0)
+}
+
+func (p *Plan) allChains() []string {
+	out := append([]string{}, p.Chains...)
+	if p.Fabric != "" {
+		out = append(out, p.Fabric)
+	}
+	return out
+}
+
+func (p *Plan) relays() []*Relay {
+	var out []*Relay
+	if p.Relay != nil {
+		out = append(out, p.Relay)
+	}
+	if p.Relay2 != nil {
+		out = append(out, p.Relay2)
+	}
+	return out
+}
+
+// Relay is another BitXHub: its id and the labels of its registered validators (account "val-<label>")
+type Relay struct {
+	ID   string   `json:"id"`
+	Vals []string `json:"vals"`
 }
 
 type runner struct {
@@ -217,10 +252,71 @@ func (r *runner) build(n *core.Node, t Tx) (pb.Transaction, map[string]interface
 			ibtp.Group = g
 			gid = "G:" + src + "|" + strings.Join(g.Keys, ",") + "|" + fmt.Sprint(g.Vals)
 		}
+		switch t.Notice {
+		case "BF", "RB", "OK":
+			st := map[string]pb.TransactionStatus{"BF": pb.TransactionStatus_BEGIN_FAILURE, "RB": pb.TransactionStatus_BEGIN_ROLLBACK, "OK": pb.TransactionStatus_SUCCESS}[t.Notice]
+			ibtp.Extra, _ = (&pb.BxhProof{TxStatus: st}).Marshal()
+		case "junk":
+			ibtp.Extra = []byte{0xff, 0xff, 0xff, 0x01}
+		}
+		sigs := []map[string]interface{}{}
+		if t.Ms {
+			bp := &pb.BxhProof{TxStatus: pb.TransactionStatus(t.MsStatus)}
+			for _, sp := range t.Sigs {
+				who, over := sp, "this"
+				if i := strings.Index(sp, "!"); i >= 0 {
+					who, over = sp[:i], sp[i+1:]
+				}
+				if who == "junk" {
+					bp.MultiSign = append(bp.MultiSign, []byte("not a signature"))
+					sigs = append(sigs, map[string]interface{}{"who": "junk", "over": "junk"})
+					continue
+				}
+				v := *ibtp
+				stt := bp.TxStatus
+				switch over {
+				case "idx":
+					v.Index++
+				case "status":
+					stt = (stt + 1) % 6
+				case "type":
+					v.Type = (v.Type + 1) % 4
+				case "from":
+					v.From = v.From + "x"
+				}
+				bp.MultiSign = append(bp.MultiSign, core.SignIBTP(n.Account("val-"+who), &v, stt))
+				sigs = append(sigs, map[string]interface{}{"who": who, "over": over})
+			}
+			b, _ := bp.Marshal()
+			n.SetProof(ibtp, b, true)
+			proof = b
+		}
+		art := map[string]interface{}{"kind": "none", "idx": 0, "cc": "", "signer": "", "sigok": false, "content": false}
+		if t.Art != "" {
+			who, what := t.Art, ""
+			if i := strings.Index(t.Art, "!"); i >= 0 {
+				who, what = t.Art[:i], t.Art[i+1:]
+			}
+			fa := core.FabricArtifact{Index: t.Idx, Chaincode: "broker", Func: "set", Args: [][]byte{[]byte("key"), []byte(fmt.Sprintf("value-%d", t.Idx))}, Signer: core.Endorser(who)}
+			switch what {
+			case "idx":
+				fa.Index++
+			case "cc":
+				fa.Chaincode = "mychaincode"
+			case "func":
+				fa.Func = "get"
+			case "sig":
+				fa.BadSig = true
+			}
+			b := core.FabricProof(fa)
+			n.SetProof(ibtp, b, true)
+			proof = b
+			art = map[string]interface{}{"kind": "fabric", "idx": int(fa.Index), "cc": fa.Chaincode, "signer": who, "sigok": !fa.BadSig, "content": fa.Func == "set"}
+		}
 		var tx pb.Transaction
 		switch t.Proof {
 		case "bad":
-			tx = n.IBTPTxWithProof(from, ibtp, []byte("another proof"))
+			tx = n.IBTPTxWithProof(from, ibtp, append([]byte("another proof"), proof...))
 		case "none":
 			tx = n.IBTPTxWithProof(from, ibtp, nil)
 		default:
@@ -237,7 +333,9 @@ func (r *runner) build(n *core.Node, t Tx) (pb.Transaction, map[string]interface
 			"amtKind": "none", "amtNum": 0, "amt": "",
 			"src": src, "dst": dst, "idx": int(t.Idx), "typ": t.Typ, "T": tOf(t.T), "proofok": t.Proof == "" || t.Proof == "ok", "id": id,
 			"gid": gid, "gcount": len(t.GDst), "srcLocal": srcLocal, "dstLocal": dstLocal,
-			"srcChain": chainOf(src), "dstChain": chainOf(dst)}
+			"srcChain": chainOf(src), "dstChain": chainOf(dst),
+			"srcBxh": strings.Split(src, ":")[0], "dstBxh": strings.Split(dst, ":")[0], "hashok": t.Proof == "" || t.Proof == "ok",
+			"ms": t.Ms, "sigs": sigs, "notice": t.Notice, "art": art}
 		return tx, d
 	case "transfer":
 		tx := n.TransferTx(from, n.Account(t.Dst).Addr, "7")
@@ -294,6 +392,18 @@ func (r *runner) build(n *core.Node, t Tx) (pb.Transaction, map[string]interface
 		return tx, map[string]interface{}{"k": "invoke", "from": from.Addr.String(), "to": addr.String(), "cls": cls, "badsig": false, "m": t.M, "c": t.C,
 			"role": t.Role, "promoted": t.Promoted, "amtKind": "none", "amtNum": 0, "amt": ""}
 	}
+}
+
+func ruleName(addr string) string {
+	switch addr {
+	case "0x00000000000000000000000000000000000000a2":
+		return "happy"
+	case "0x00000000000000000000000000000000000000a1":
+		return "simfabric"
+	case "0x00000000000000000000000000000000000000a0":
+		return "fabric"
+	}
+	return addr
 }
 
 // the model's integers are 32 bit: timeouts beyond that are "huge" (-1 in the trace)
@@ -406,10 +516,51 @@ func (r *runner) observe(n *core.Node, res *core.BlockResult) map[string]interfa
 		sv = append(sv, m{"svc": full(n, s), "st": n.ServiceStatus(s), "chainOf": strings.Split(s, ":")[0]})
 	}
 	ch := []m{}
-	for _, c := range r.plan.Chains {
+	for _, c := range r.plan.allChains() {
 		ch = append(ch, m{"chain": c, "st": n.AppchainStatus(c)})
 	}
-	out := m{"counters": ctr, "status": st, "groups": groups, "tmeta": tm, "mmeta": mmeta, "svc": sv, "chains": ch}
+	relay := []m{}
+	label := map[string]string{}
+	for _, l := range []string{"v0", "v1", "v2", "v3", "v4", "v5", "v6", "w0", "w1", "w2", "w3", "x0", "x1", "x2"} {
+		label[n.Account("val-"+l).Addr.String()] = l
+	}
+	for _, rl := range r.plan.relays() {
+		stt, addrs, found := n.AppchainTrustRoot(rl.ID)
+		vals := []string{}
+		for _, a := range addrs {
+			if l, ok := label[a]; ok {
+				vals = append(vals, l)
+			} else {
+				vals = append(vals, "?"+a)
+			}
+		}
+		if found {
+			relay = append(relay, m{"bxh": rl.ID, "st": stt, "vals": vals, "n": len(addrs)})
+		}
+	}
+	// the validation rules stored for every registered appchain: which one (if any) is bound (status available)
+	rules := []m{}
+	for _, c := range r.plan.allChains() {
+		rc := n.Query(constant.RuleManagerContractAddr.Address(), "Rules", pb.String(c))
+		var rl []struct {
+			Address string `json:"address"`
+			Master  bool   `json:"master"`
+			Status  string `json:"status"`
+		}
+		bound, unbinding := "", ""
+		if rc != nil && rc.Status == pb.Receipt_SUCCESS && json.Unmarshal(rc.Ret, &rl) == nil {
+			for _, x := range rl {
+				if x.Status == "available" && bound == "" {
+					bound = ruleName(x.Address)
+				}
+				if x.Status == "unbinding" && unbinding == "" {
+					unbinding = ruleName(x.Address)
+				}
+			}
+		}
+		rules = append(rules, m{"chain": c, "bound": bound, "unbinding": unbinding, "cert": core.EndorserLabelOf(n.AppchainRawTrustRoot(c))})
+	}
+	out := m{"counters": ctr, "status": st, "groups": groups, "tmeta": tm, "mmeta": mmeta, "svc": sv, "chains": ch, "relay": relay, "rules": rules}
 	if r.govMode {
 		props := []m{}
 		for _, pid := range r.pids {
@@ -487,6 +638,20 @@ func (r *runner) gov(st Step) bool {
 		from = a.Account("admin-" + chain)
 	}
 	tx := a.InvokeTx(from, contract, st.M, pb.String(st.Obj), pb.String("reason"))
+	if st.M == "UpdateMasterRule" { // the appchain admin proposes another master rule (st.Args[0]: happy | simfabric | fabric)
+		a.SetNonce(from.Addr, a.NextNonce(from.Addr)-1)
+		addr := map[string]string{"happy": "0x00000000000000000000000000000000000000a2", "simfabric": "0x00000000000000000000000000000000000000a1", "fabric": "0x00000000000000000000000000000000000000a0"}[st.Args[0]]
+		contract = constant.RuleManagerContractAddr.Address()
+		tx = a.InvokeTx(from, contract, "UpdateMasterRule", pb.String(st.Obj), pb.String(addr), pb.String("reason"))
+	}
+	if st.M == "UpdateRelay" { // the relay chain's admin replaces its validator set (trust root)
+		a.SetNonce(from.Addr, a.NextNonce(from.Addr)-1) // the transaction above is discarded
+		var vals []*types.Address
+		for _, l := range st.Args {
+			vals = append(vals, a.Account("val-"+l).Addr)
+		}
+		tx = a.UpdateTrustRootTx(from, st.Obj, vals)
+	}
 	d := map[string]interface{}{"k": "gov", "from": from.Addr.String(), "to": contract.String(), "cls": "gov", "badsig": false, "m": st.M, "amtKind": "none", "amtNum": 0, "amt": "", "obj": st.Obj}
 	r.emit(map[string]interface{}{"ev": "Submit", "h": int(a.Height() + 1), "n": 1})
 	ev, res := r.pair.Exec([]pb.Transaction{tx}, []map[string]interface{}{d}, 0)
@@ -547,30 +712,8 @@ func (r *runner) run(dir string) {
 			r.svcs = append(r.svcs, fmt.Sprintf("%s:svc%d", c, k))
 		}
 	}
-	if err := pair.Both(func(n *core.Node) error {
-		for _, u := range []string{"u1", "u2", "u3"} {
-			if _, err := n.Fund(n.Account(u).Addr, "6000000"); err != nil {
-				return err
-			}
-		}
-		for _, c := range p.Chains {
-			adm := n.Account("admin-" + c)
-			if _, err := n.Fund(adm.Addr, "3000000"); err != nil {
-				return err
-			}
-			if _, err := n.RegisterAppchain(adm, c); err != nil {
-				return err
-			}
-			for k := 1; k <= p.NSvc; k++ {
-				s := fmt.Sprintf("%s:svc%d", c, k)
-				if _, err := n.RegisterService(adm, c, fmt.Sprintf("svc%d", k), !unord[s], p.Black[s]); err != nil {
-					return err
-				}
-			}
-		}
-		return nil
-	}); err != nil {
-		panic(err)
+	if p.Fabric != "" {
+		r.svcs = append(r.svcs, p.Fabric+":svc1")
 	}
 	setup := func(n *core.Node) error {
 		for _, u := range []string{"u1", "u2", "u3"} {
@@ -593,7 +736,35 @@ func (r *runner) run(dir string) {
 				}
 			}
 		}
+		if p.Fabric != "" {
+			adm := n.Account("admin-" + p.Fabric)
+			if _, err := n.Fund(adm.Addr, "3000000"); err != nil {
+				return err
+			}
+			if _, err := n.RegisterFabricAppchain(adm, p.Fabric, core.Endorser("c0")); err != nil {
+				return err
+			}
+			if _, err := n.RegisterService(adm, p.Fabric, "svc1", true, ""); err != nil {
+				return err
+			}
+		}
+		for _, rl := range p.relays() {
+			adm := n.Account("admin-" + rl.ID)
+			if _, err := n.Fund(adm.Addr, "3000000"); err != nil {
+				return err
+			}
+			var vals []*types.Address
+			for _, l := range rl.Vals {
+				vals = append(vals, n.Account("val-"+l).Addr)
+			}
+			if _, err := n.RegisterRelayChain(adm, rl.ID, vals); err != nil {
+				return err
+			}
+		}
 		return nil
+	}
+	if err := pair.Both(setup); err != nil {
+		panic(err)
 	}
 	r.rrng = rand.New(rand.NewSource(p.Seed*977 + int64(len(p.Steps))))
 	genesisRestart := []int{}
@@ -760,6 +931,9 @@ func genPlan(rng *rand.Rand, name string, mode string) *Plan {
 			svcs = append(svcs, fmt.Sprintf("%s:svc%d", c, k))
 		}
 	}
+	if rng.Intn(5) == 0 { // one service is registered as unordered ("batch"): no index check towards it, batch receipts from it
+		p.Unord = []string{svcs[rng.Intn(len(svcs))]}
+	}
 	next := map[string]uint64{}  // next request index per pair (generator's own bookkeeping, not an oracle)
 	nextR := map[string]uint64{} // next receipt index per pair
 	pick := func() (string, string) {
@@ -907,6 +1081,326 @@ func genPlan(rng *rand.Rand, name string, mode string) *Plan {
 				obj = strings.Split(s, ":")[0]
 			}
 			p.Steps = append(p.Steps, Step{Step: "gov", M: m, Obj: obj, Ok: rng.Intn(4) > 0})
+		default:
+			p.Steps = append(p.Steps, Step{Step: "restart"})
+		}
+	}
+	return p
+}
+
+// inter-BitXHub scenarios (C03 multi-signature matrix; C02 / C04 / C06 between two hubs): another BitXHub "9999" with
+// n validators is registered as relay chain; requests arrive from its services with multi-signature proofs whose
+// signer sets straddle the threshold (distinct / duplicate / unregistered signers, signatures over another index,
+// status, type or source, garbage), requests leave for its services, its receipts and begin-failure / rollback
+// notices come back; its validator set is replaced and it is frozen / activated / logged out in between.
+func genXhub(rng *rand.Rand, name string) *Plan {
+	nval := []int{1, 2, 3, 4, 4, 5, 7}[rng.Intn(7)]
+	var vals []string
+	for i := 0; i < nval; i++ {
+		vals = append(vals, fmt.Sprintf("v%d", i))
+	}
+	if rng.Intn(5) == 0 && nval > 1 { // a validator listed twice: the list is longer than the set
+		vals[nval-1] = vals[0]
+	}
+	p := &Plan{Name: name, Audit: rng.Intn(3) == 0, Seed: 1 + rng.Int63n(2), Proof: []string{"serial", "parallel"}[rng.Intn(2)],
+		Chains: []string{"chainA", "chainB"}, NSvc: 1, Black: map[string]string{}, Relay: &Relay{ID: "9999", Vals: vals}}
+	if rng.Intn(4) == 0 {
+		p.Unord = []string{"chainB:svc1"}
+	}
+	cur := append([]string{}, vals...) // the generator's idea of the registered set (not an oracle)
+	local := []string{"chainA:svc1", "chainB:svc1"}
+	remote := []string{"9999:chainX:svcX", "9999:chainY:svcY"}
+	if rng.Intn(3) == 0 { // a second hub with validators of its own: signatures of one hub must not count for the other
+		p.Relay2 = &Relay{ID: "7777", Vals: []string{"w0", "w1", "w2", "w3"}[:1+rng.Intn(4)]}
+		remote[1] = "7777:chainY:svcY"
+	}
+	next, nextR := map[string]uint64{}, map[string]uint64{}
+	sigsFor := func(end string) []string {
+		reg := map[string]bool{}
+		var regs []string
+		cur := cur
+		if strings.HasPrefix(end, "7777") && p.Relay2 != nil && rng.Intn(6) > 0 {
+			cur = p.Relay2.Vals
+		}
+		for _, v := range cur {
+			if !reg[v] {
+				reg[v] = true
+				regs = append(regs, v)
+			}
+		}
+		thr := 0
+		if len(cur) > 0 {
+			thr = (len(cur) - 1) / 3
+		}
+		rng.Shuffle(len(regs), func(a, b int) { regs[a], regs[b] = regs[b], regs[a] })
+		want := thr + 1 // just enough
+		switch rng.Intn(8) {
+		case 0, 1:
+			want = thr // one too few
+		case 2:
+			want = len(regs)
+		case 3:
+			want = 0
+		}
+		if want > len(regs) {
+			want = len(regs)
+		}
+		out := append([]string{}, regs[:want]...)
+		// padding that must not count
+		for k := rng.Intn(4); k > 0 && len(out) > 0+0; k-- {
+			switch rng.Intn(5) {
+			case 0:
+				out = append(out, out[rng.Intn(len(out))]) // duplicate signer
+			case 1:
+				out = append(out, fmt.Sprintf("x%d", rng.Intn(3))) // unregistered signer
+			case 2:
+				out = append(out, regs[rng.Intn(len(regs))]+"!"+[]string{"idx", "status", "type", "from"}[rng.Intn(4)]) // signed something else
+			case 3:
+				out = append(out, "junk")
+			case 4:
+				out = append(out, fmt.Sprintf("v%d", rng.Intn(7))) // maybe registered, maybe not, maybe duplicate
+			}
+			if p.Relay2 != nil && rng.Intn(3) == 0 {
+				out = append(out, fmt.Sprintf("w%d", rng.Intn(4))) // a validator of the other hub
+			}
+		}
+		if len(out) == 0 && rng.Intn(2) == 0 {
+			out = append(out, fmt.Sprintf("x%d", rng.Intn(3)))
+		}
+		rng.Shuffle(len(out), func(a, b int) { out[a], out[b] = out[b], out[a] })
+		return out
+	}
+	timeouts := []int64{0, 0, 1, 2, 3, 1 << 62}
+	idxAround := func(n uint64) uint64 {
+		switch rng.Intn(16) {
+		case 0:
+			return 0
+		case 1:
+			return n + 1
+		case 2:
+			if n > 1 {
+				return n - 1
+			}
+		}
+		return n
+	}
+	type sent struct {
+		s, d string
+		idx  uint64
+		T    int64
+	}
+	var reqs []sent
+	nsteps := 10 + rng.Intn(14)
+	for i := 0; i < nsteps; i++ {
+		c := rng.Intn(24)
+		switch {
+		case c < 15:
+			var txs []Tx
+			for j := 1 + rng.Intn(3); j > 0; j-- {
+				from := []string{"u1", "u2", "u3"}[rng.Intn(3)]
+				proof := "ok"
+				if rng.Intn(12) == 0 {
+					proof = []string{"bad", "none"}[rng.Intn(2)]
+				}
+				switch k := rng.Intn(10); {
+				case k < 3: // request from the other hub to a local service
+					s, d := remote[rng.Intn(2)], local[rng.Intn(2)]
+					if rng.Intn(14) == 0 {
+						s = []string{"8888:chainX:svcX", "chainA:chainX:svcX"}[rng.Intn(2)] // unregistered hub / an appchain that is no hub
+					}
+					if rng.Intn(20) == 0 {
+						d = remote[1] // neither end is here
+					}
+					pr := s + ">" + d
+					if next[pr] == 0 {
+						next[pr], nextR[pr] = 1, 1
+					}
+					idx := idxAround(next[pr])
+					t := Tx{K: "ibtp", Src: s, Dst: d, Idx: idx, Typ: "REQ", T: timeouts[rng.Intn(len(timeouts))], Proof: proof, From: from, Ms: rng.Intn(15) > 0,
+						Sigs: sigsFor(s), MsStatus: []int{0, 0, 0, 1, 3}[rng.Intn(5)]}
+					if rng.Intn(8) == 0 {
+						t.Notice = []string{"BF", "RB", "OK", "junk"}[rng.Intn(4)]
+					}
+					if idx == next[pr] {
+						next[pr]++ // optimistic; the proof may still fail
+					}
+					reqs = append(reqs, sent{s, d, idx, t.T})
+					txs = append(txs, t)
+				case k < 5: // request from a local service to the other hub
+					s, d := local[rng.Intn(2)], remote[rng.Intn(2)]
+					if rng.Intn(14) == 0 {
+						d = "8888:chainX:svcX"
+					}
+					pr := s + ">" + d
+					if next[pr] == 0 {
+						next[pr], nextR[pr] = 1, 1
+					}
+					idx := idxAround(next[pr])
+					t := Tx{K: "ibtp", Src: s, Dst: d, Idx: idx, Typ: "REQ", T: timeouts[rng.Intn(len(timeouts))], Proof: proof, From: from}
+					if rng.Intn(6) == 0 {
+						t.Ms, t.Sigs = true, sigsFor(d)
+					}
+					if idx == next[pr] {
+						next[pr]++
+					}
+					reqs = append(reqs, sent{s, d, idx, t.T})
+					txs = append(txs, t)
+				case k < 8 && len(reqs) > 0: // a receipt or a notice for something sent earlier
+					q := reqs[rng.Intn(len(reqs))]
+					idx := q.idx
+					if rng.Intn(10) == 0 {
+						idx = idxAround(idx)
+					}
+					if rng.Intn(3) == 0 { // notice: the request again, carrying the other hub's status
+						t := Tx{K: "ibtp", Src: q.s, Dst: q.d, Idx: idx, Typ: "REQ", T: q.T, Proof: proof, From: from, Notice: []string{"BF", "RB", "BF", "RB", "OK", "junk"}[rng.Intn(6)]}
+						if !strings.HasPrefix(q.s, "chain") || rng.Intn(5) == 0 {
+							t.Ms, t.Sigs, t.MsStatus = true, sigsFor(q.s), []int{0, 1, 2}[rng.Intn(3)]
+						}
+						txs = append(txs, t)
+					} else {
+						t := Tx{K: "ibtp", Src: q.s, Dst: q.d, Idx: idx, Typ: []string{"OK", "OK", "FAIL", "RB"}[rng.Intn(4)], Proof: proof, From: from}
+						if !strings.HasPrefix(q.d, "chain") || rng.Intn(6) == 0 { // proven by the other hub
+							t.Ms, t.Sigs, t.MsStatus = true, sigsFor(q.d), []int{0, 3, 4, 5}[rng.Intn(4)]
+						}
+						txs = append(txs, t)
+					}
+				case k < 9: // ordinary local traffic next to it
+					s, d := local[rng.Intn(2)], local[rng.Intn(2)]
+					if s == d {
+						continue
+					}
+					pr := s + ">" + d
+					if next[pr] == 0 {
+						next[pr], nextR[pr] = 1, 1
+					}
+					idx := next[pr]
+					next[pr]++
+					reqs = append(reqs, sent{s, d, idx, 0})
+					txs = append(txs, Tx{K: "ibtp", Src: s, Dst: d, Idx: idx, Typ: "REQ", T: timeouts[rng.Intn(len(timeouts))], Proof: proof, From: from})
+				default:
+					txs = append(txs, Tx{K: "transfer", From: from, Dst: "u2"})
+				}
+			}
+			if len(txs) > 0 {
+				p.Steps = append(p.Steps, Step{Step: "block", Txs: txs})
+			}
+		case c < 18:
+			p.Steps = append(p.Steps, Step{Step: "empty", N: 1 + rng.Intn(3)})
+		case c < 20: // the other hub's validator set is replaced
+			n2 := []int{1, 2, 3, 4, 5, 7}[rng.Intn(6)]
+			var nv []string
+			off := rng.Intn(3)
+			for k := 0; k < n2; k++ {
+				nv = append(nv, fmt.Sprintf("v%d", (k+off)%7))
+			}
+			ok := rng.Intn(4) > 0
+			p.Steps = append(p.Steps, Step{Step: "gov", M: "UpdateRelay", Obj: "9999", Args: nv, Ok: ok})
+			if ok {
+				cur = nv
+			}
+		case c < 22:
+			m := []string{"FreezeAppchain", "ActivateAppchain", "FreezeAppchain", "ActivateAppchain", "LogoutAppchain"}[rng.Intn(5)]
+			p.Steps = append(p.Steps, Step{Step: "gov", M: m, Obj: "9999", Ok: rng.Intn(4) > 0})
+		case c < 23:
+			s := local[rng.Intn(2)]
+			m := []string{"FreezeService", "ActivateService"}[rng.Intn(2)]
+			p.Steps = append(p.Steps, Step{Step: "gov", M: m, Obj: s, Ok: true})
+		default:
+			p.Steps = append(p.Steps, Step{Step: "restart"})
+		}
+	}
+	return p
+}
+
+// rule scenarios (C03): chainF is validated by the simplified Fabric rule (trust root: the certificate of endorser c0),
+// chainA by the rule that accepts everything. IBTPs that chainF has to prove (its requests, receipts addressed to it)
+// carry real endorsed artifacts: the right one, or one for another index / chaincode / function, with a broken
+// signature, endorsed by somebody else, or no artifact at all; chainF's master rule is replaced (and replaced back)
+// through real proposals, chainF is frozen / logged out in between.
+func genRules(rng *rand.Rand, name string) *Plan {
+	p := &Plan{Name: name, Audit: rng.Intn(3) == 0, Seed: 1 + rng.Int63n(2), Proof: []string{"serial", "parallel"}[rng.Intn(2)],
+		Chains: []string{"chainA"}, NSvc: 1, Black: map[string]string{}, Fabric: "chainF"}
+	next := map[string]uint64{}
+	artFor := func() string {
+		switch rng.Intn(10) {
+		case 0:
+			return "c0!idx"
+		case 1:
+			return "c0!cc"
+		case 2:
+			return "c0!func"
+		case 3:
+			return "c0!sig"
+		case 4:
+			return "c1"
+		case 5:
+			return ""
+		}
+		return "c0"
+	}
+	type sent struct {
+		s, d string
+		idx  uint64
+	}
+	var reqs []sent
+	nsteps := 10 + rng.Intn(12)
+	for i := 0; i < nsteps; i++ {
+		c := rng.Intn(20)
+		switch {
+		case c < 13:
+			var txs []Tx
+			for j := 1 + rng.Intn(3); j > 0; j-- {
+				from := []string{"u1", "u2", "u3"}[rng.Intn(3)]
+				proof := "ok"
+				if rng.Intn(14) == 0 {
+					proof = []string{"bad", "none"}[rng.Intn(2)]
+				}
+				s, d := "chainF:svc1", "chainA:svc1"
+				if rng.Intn(2) == 0 {
+					s, d = d, s
+				}
+				if rng.Intn(3) > 0 || len(reqs) == 0 {
+					pr := s + ">" + d
+					if next[pr] == 0 {
+						next[pr] = 1
+					}
+					idx := next[pr]
+					if rng.Intn(12) == 0 {
+						idx++
+					}
+					t := Tx{K: "ibtp", Src: s, Dst: d, Idx: idx, Typ: "REQ", T: []int64{0, 0, 2, 3}[rng.Intn(4)], Proof: proof, From: from}
+					if s == "chainF:svc1" {
+						t.Art = artFor()
+					} else if rng.Intn(8) == 0 {
+						t.Art = "c0"
+					}
+					if idx == next[pr] {
+						next[pr]++ // optimistic
+					}
+					reqs = append(reqs, sent{s, d, idx})
+					txs = append(txs, t)
+				} else {
+					q := reqs[rng.Intn(len(reqs))]
+					t := Tx{K: "ibtp", Src: q.s, Dst: q.d, Idx: q.idx, Typ: []string{"OK", "OK", "FAIL", "RB"}[rng.Intn(4)], Proof: proof, From: from}
+					if q.d == "chainF:svc1" {
+						t.Art = artFor()
+					}
+					txs = append(txs, t)
+				}
+			}
+			p.Steps = append(p.Steps, Step{Step: "block", Txs: txs})
+		case c < 15:
+			p.Steps = append(p.Steps, Step{Step: "empty", N: 1 + rng.Intn(2)})
+		case c < 18:
+			to := []string{"happy", "simfabric", "happy", "simfabric", "fabric"}[rng.Intn(5)]
+			st := Step{Step: "gov", M: "UpdateMasterRule", Obj: "chainF", Args: []string{to}, Ok: rng.Intn(4) > 0}
+			if rng.Intn(3) == 0 { // leave the proposal open for a while: traffic during the replacement
+				st.Step = "open"
+			}
+			p.Steps = append(p.Steps, st)
+		case c < 19:
+			m := []string{"FreezeAppchain", "ActivateAppchain", "LogoutAppchain"}[rng.Intn(3)]
+			p.Steps = append(p.Steps, Step{Step: "gov", M: m, Obj: "chainF", Ok: rng.Intn(4) > 0})
 		default:
 			p.Steps = append(p.Steps, Step{Step: "restart"})
 		}
@@ -1271,6 +1765,10 @@ func main() {
 					surfCache = lockstep.Surface()
 				}
 				plans = append(plans, genSurface(rng, fmt.Sprintf("surface-%d-%d", *seed, i), surfCache, *frac))
+			} else if *mode == "rules" {
+				plans = append(plans, genRules(rng, fmt.Sprintf("rules-%d-%d", *seed, i)))
+			} else if *mode == "xhub" {
+				plans = append(plans, genXhub(rng, fmt.Sprintf("xhub-%d-%d", *seed, i)))
 			} else if *mode == "timed" {
 				plans = append(plans, genTimed(rng, fmt.Sprintf("timed-%d-%d", *seed, i)))
 			} else {
